@@ -131,9 +131,11 @@ fn body_recurse(
             }
             Some(TokenTree::Punct(punct)) => {
                 lines.last_mut().unwrap().push(punct.as_char());
+                let slash = punct.as_char() == '/';
                 match toks.peek() {
+                    // `/` directly followed by `*` would open a comment
                     Some(TokenTree::Punct(punct))
-                        if ['>', '<', '=', '*'].contains(&punct.as_char()) => {}
+                        if ['>', '<', '=', '*'].contains(&punct.as_char()) && !(slash && punct.as_char() == '*') => {}
                     Some(TokenTree::Group(_)) => {}
                     None => {}
                     _ => {
